@@ -179,8 +179,34 @@ def check_det(kind):
     return None
 
 
+def check_factory(ndim):
+    odl, np = _odl()
+    doms = [([-3, -1], [1, 2]), ([0.5, -4], [2, -1]), ([-1, -1], [1, 1]), ([-5, 1], [-2, 6])]
+    for lo, hi in doms:
+        if ndim == 3:
+            lo, hi = lo + [-1], hi + [2]
+        space = odl.uniform_discr(lo, hi, [8] * ndim)
+        g = odl.tomo.parallel_beam_geometry(space)
+        corners = space.domain.corners()
+        dmin, dmax = g.det_params.min_pt, g.det_params.max_pt
+        for a in np.linspace(0, np.pi, 13):
+            e = np.array([np.cos(a), np.sin(a)])
+            proj = corners[:, :2] @ e
+            if proj.min() < dmin[0] - 1e-12 or proj.max() > dmax[0] + 1e-12:
+                return 'parallel_beam_geometry(%r): detector range [%r, %r] does not cover the projection [%r, %r] of the volume at angle %r' % (space, dmin[0], dmax[0], proj.min(), proj.max(), a)
+        if ndim == 3 and (corners[:, 2].min() < dmin[1] - 1e-12 or corners[:, 2].max() > dmax[1] + 1e-12):
+            return 'vertical detector range does not cover the volume'
+    return None
+
+
 def replay(ob):
     parts = ob['unit'].split('/')
+    if parts[0] == 'factory':
+        try:
+            bad = check_factory(int((ob.get('config') or {}).get('ndim', 2)))
+        except Exception as e:
+            return {'reproduced': False, 'detail': 'native evaluation raised %s: %s' % (type(e).__name__, e)}
+        return {'reproduced': bool(bad), 'detail': bad or 'the detector covers the volume natively'}
     try:
         if parts[0] == 'rot':
             bad = check_rot(parts[1])
